@@ -124,11 +124,11 @@ theorem decodeAlert_enc (a : AlertRec) (rest : List Byte) (h : wfAlert a = true)
     simp
   | some t =>
     simp only [Bool.and_eq_true, decide_eq_true_eq] at hto
-    obtain ⟨⟨hty, htv⟩, htt⟩ := hto
+    obtain ⟨⟨⟨hty, htv⟩, htt⟩, htne⟩ := hto
     have ht32 : tsOf t < 256 ^ 4 := by simp only [maxU32] at htt; omega
     simp only [Bool.not_true, Bool.false_eq_true, ↓reduceIte, decodeLE_encodeLE _ _ ht32,
       dtOf_tsOf t hty htv, htv]
-    rw [if_neg (by omega)]
+    rw [if_neg htne]
 
 theorem decodeAlertList_enc (as : List AlertRec) (rest : List Byte)
     (h : ∀ a ∈ as, wfAlert a = true) :
